@@ -464,8 +464,15 @@ Definition break_is_and : bool :=
   String.eqb (decision "receiver_channels_have_data_or_borrows.break_if") "has_data && has_borrows".
 Definition break_is_or : bool :=
   String.eqb (decision "receiver_channels_have_data_or_borrows.break_if") "has_data || has_borrows".
-Definition remove_if_no_borrows : bool :=
-  String.eqb (decision "receive_from_to_be_removed_connections.remove_if") "! has_borrows".
+(* `if !has_borrows && !has_data { remove }` (since fix 9915d96); before: `if !has_borrows`.  Arguments: the
+   scan result (has_data, has_borrows); an unknown text releases unconditionally, so nothing is provable. *)
+Definition remove_if_old : bool -> bool -> bool := fun _ b => negb b.
+Definition remove_rule_of (txt : string) : bool -> bool -> bool :=
+  if String.eqb txt "! has_borrows && ! has_data" then (fun d b => negb b && negb d)
+  else if String.eqb txt "! has_borrows" then remove_if_old
+  else (fun _ _ => true).
+Definition remove_rule_code : bool -> bool -> bool :=
+  remove_rule_of (decision "receive_from_to_be_removed_connections.remove_if").
 Definition keep_if_data_or_borrows : bool :=
   String.eqb (decision "prepare_connection_removal.keep_connection") "connection_has_data | connection_has_borrows".
 
@@ -490,9 +497,9 @@ Definition keep_on_disconnect (chs : list chan) : bool :=
 (* Receiver::receive_from_to_be_removed_connections, one expired connection, a receive on
    channel c with per-channel borrow limit m: *)
 Inductive expired_step := XSkip | XReceive | XKeep | XRemove.
-Definition poll_expired (chs : list chan) (c m : nat) : expired_step :=
+Definition poll_expired_with (rule : bool -> bool -> bool) (chs : list chan) (c m : nat) : expired_step :=
   let '(cd, cb) := nth c chs (false, 0) in
   if Nat.eqb cb m then XSkip
   else if cd then XReceive
-  else let '(_, b) := scan chs in
-       if remove_if_no_borrows then (if b then XKeep else XRemove) else XRemove.
+  else let '(d, b) := scan chs in if rule d b then XRemove else XKeep.
+Definition poll_expired : list chan -> nat -> nat -> expired_step := poll_expired_with remove_rule_code.
